@@ -40,7 +40,7 @@ def fl_bytes(h, bs):
     return h
 
 
-ERRCODE = {"EEof": 1, "ETooLong": 2, "EValue": 3, "EUnicode": 4, "EStruct": 5, "EAttribute": 6,
+ERRCODE = {"EEof": 1, "ETooLong": 3, "EValue": 3, "EUnicode": 4, "EStruct": 5, "EAttribute": 6,
            "EType": 7, "EKey": 8, "EOverflow": 9, "EFuel": 10, "EOther": 11}
 
 
